@@ -4,7 +4,7 @@ import warnings
 OPS = {'o1': dict(name='A', eqv=1, k=2, x0=10), 'o2': dict(name='A', eqv=2, k=3, x0=20), 'o3': dict(name='B', eqv=1, k=5, x0=30)}
 NT_OP = {'t1': 'o1', 't2': 'o2', 't3': 'o3', 't4': 'o1', 't6': 'o2'}
 NT_VAR = {'t1': {}, 't2': {}, 't3': {'k': 7.0}, 't4': {'x': 15.0}, 't6': {'k': 6.0}}
-CIRC_NODES = {'c1': [('a', 't1'), ('b', 't1'), ('c', 't4')], 'c2': [('a', 't2'), ('b', 't6')], 'c3': [('a', 't3'), ('b', 't1')]}
+CIRC_NODES = {'c1': [('a', 't1'), ('b', 't1'), ('c', 't4')], 'c2': [('a', 't6'), ('b', 't2')], 'c3': [('a', 't3'), ('b', 't1')]}
 EDGE_GAIN = {'c1': 3, 'c2': 1, 'c3': 6, 'cy': 1, 'd1': 3}      # edge templates of c1 / c3: operators named 'E' with different gains
 INP_VAL = {'c1': 7.0, 'c2': 11.0, 'c3': 13.0, 'cy': 17.0, 'd1': 19.0}
 # d1 = c1.update_template(name='d1'): a derived circuit that references c1's node templates and edges
